@@ -64,6 +64,7 @@ Record stage := {
   s_signal : option nat;             (* context._signal_name *)
   s_has_exc : bool;                  (* "exception" in context *)
   s_plan_pending : bool;             (* context._plan_pending: claimed, plan commit still to come *)
+  s_hydrated : list nat;             (* context._hydrated_keys: keys copied from ancestors by the last planning *)
   s_ctx : kv;                        (* user context keys *)
   s_outs : kv;                       (* outputs *)
   s_tasks : list task;
@@ -193,7 +194,7 @@ Definition st_set (st : stage) (status : status) (started ended : bool) (fired :
      s_enabled := s_enabled st; s_mutex := s_mutex st; s_choice := s_choice st; s_max_jumps := s_max_jumps st;
      s_status := status; s_started := started; s_ended := ended; s_version := s_version st + 1;
      s_fired := fired; s_branches := branches; s_bypass := s_bypass st; s_jump_count := s_jump_count st;
-     s_buffered := s_buffered st; s_signal := s_signal st; s_has_exc := has_exc; s_plan_pending := s_plan_pending st;
+     s_buffered := s_buffered st; s_signal := s_signal st; s_has_exc := has_exc; s_plan_pending := s_plan_pending st; s_hydrated := s_hydrated st;
      s_ctx := ctx; s_outs := outs; s_tasks := tasks |}.
 
 (* store_stage of an object whose only changes are the given ones; version + 1 *)
@@ -214,7 +215,7 @@ Definition st_ctl (st : stage) (bypass : bool) (jc : Z) (buffered : list nat) (s
      s_enabled := s_enabled st; s_mutex := s_mutex st; s_choice := s_choice st; s_max_jumps := s_max_jumps st;
      s_status := s_status st; s_started := s_started st; s_ended := s_ended st; s_version := s_version st;
      s_fired := s_fired st; s_branches := s_branches st; s_bypass := bypass; s_jump_count := jc;
-     s_buffered := buffered; s_signal := sig; s_has_exc := s_has_exc st; s_plan_pending := s_plan_pending st;
+     s_buffered := buffered; s_signal := sig; s_has_exc := s_has_exc st; s_plan_pending := s_plan_pending st; s_hydrated := s_hydrated st;
      s_ctx := s_ctx st; s_outs := s_outs st; s_tasks := s_tasks st |}.
 
 (* context change folded into a store that is already counted (no extra version bump) *)
@@ -223,7 +224,7 @@ Definition with_ctx (st : stage) (ctx : kv) : stage :=
      s_enabled := s_enabled st; s_mutex := s_mutex st; s_choice := s_choice st; s_max_jumps := s_max_jumps st;
      s_status := s_status st; s_started := s_started st; s_ended := s_ended st; s_version := s_version st;
      s_fired := s_fired st; s_branches := s_branches st; s_bypass := s_bypass st; s_jump_count := s_jump_count st;
-     s_buffered := s_buffered st; s_signal := s_signal st; s_has_exc := s_has_exc st; s_plan_pending := s_plan_pending st;
+     s_buffered := s_buffered st; s_signal := s_signal st; s_has_exc := s_has_exc st; s_plan_pending := s_plan_pending st; s_hydrated := s_hydrated st;
      s_ctx := ctx; s_outs := s_outs st; s_tasks := s_tasks st |}.
 
 Definition with_pending (st : stage) (p : bool) : stage :=
@@ -231,8 +232,16 @@ Definition with_pending (st : stage) (p : bool) : stage :=
      s_enabled := s_enabled st; s_mutex := s_mutex st; s_choice := s_choice st; s_max_jumps := s_max_jumps st;
      s_status := s_status st; s_started := s_started st; s_ended := s_ended st; s_version := s_version st;
      s_fired := s_fired st; s_branches := s_branches st; s_bypass := s_bypass st; s_jump_count := s_jump_count st;
-     s_buffered := s_buffered st; s_signal := s_signal st; s_has_exc := s_has_exc st; s_plan_pending := p;
+     s_buffered := s_buffered st; s_signal := s_signal st; s_has_exc := s_has_exc st; s_plan_pending := p; s_hydrated := s_hydrated st;
      s_ctx := s_ctx st; s_outs := s_outs st; s_tasks := s_tasks st |}.
+
+Definition with_hydrated (st : stage) (ctx : kv) (h : list nat) : stage :=
+  {| s_reqs := s_reqs st; s_join := s_join st; s_threshold := s_threshold st; s_cof := s_cof st; s_fp := s_fp st;
+     s_enabled := s_enabled st; s_mutex := s_mutex st; s_choice := s_choice st; s_max_jumps := s_max_jumps st;
+     s_status := s_status st; s_started := s_started st; s_ended := s_ended st; s_version := s_version st;
+     s_fired := s_fired st; s_branches := s_branches st; s_bypass := s_bypass st; s_jump_count := s_jump_count st;
+     s_buffered := s_buffered st; s_signal := s_signal st; s_has_exc := s_has_exc st; s_plan_pending := s_plan_pending st;
+     s_hydrated := h; s_ctx := ctx; s_outs := s_outs st; s_tasks := s_tasks st |}.
 
 Definition task_set (ts : list task) (t : nat) (x : status) (started : bool) : list task :=
   match nth_error ts t with
@@ -282,8 +291,13 @@ Definition merged_ancestor_outputs (s : state) (st : stage) : kv :=
                         else m)
             (seqn (length (w_stages s))) [].
 
-(* _plan_stage: ancestors first, then the stage's own context on top *)
-Definition planned_ctx (s : state) (st : stage) : kv := kv_update (merged_ancestor_outputs s st) (s_ctx st).
+(* _plan_stage: the keys hydrated by a previous planning are dropped; then ancestors first, the stage's
+   own context on top; the keys that came only from ancestors are recorded as hydrated *)
+Definition own_ctx (st : stage) : kv := filter (fun p => negb (mem_nat (fst p) (s_hydrated st))) (s_ctx st).
+Definition planned_ctx (s : state) (st : stage) : kv := kv_update (merged_ancestor_outputs s st) (own_ctx st).
+Definition planned_hydrated (s : state) (st : stage) : list nat :=
+  map fst (filter (fun p => match kv_get (fst p) (own_ctx st) with Some _ => false | None => true end)
+                  (merged_ancestor_outputs s st)).
 
 (* ------------------------------------------------------------------------------------------ *)
 (* handlers                                                                                    *)
@@ -434,8 +448,10 @@ Definition start_if_ready (s : state) (id i : nat) (retry : Z) (st0 : stage) (by
           | Some g => map (fun j => c_push (MCancelStage j)) (siblings_not_started s i g)
           | None => [] end in
         let fired := match s_join st with J_DISCRIMINATOR | J_N_OF_M => true | _ => s_fired st end in
-        let planned := with_pending (st_set claimed (s_status claimed) (s_started claimed) (s_ended claimed) fired (s_branches claimed)
-                              (s_has_exc claimed) (planned_ctx s st) (s_outs claimed) (s_tasks claimed)) false in
+        let planned := with_pending (with_hydrated
+                         (st_set claimed (s_status claimed) (s_started claimed) (s_ended claimed) fired (s_branches claimed)
+                                 (s_has_exc claimed) (planned_ctx s st) (s_outs claimed) (s_tasks claimed))
+                         (planned_ctx s st) (planned_hydrated s st)) false in
         ok ([claim_commit] ++ sib_commits ++
             [txn [c_put i planned; c_mark id; c_pushes (first_msgs i st)]]).
 
@@ -502,7 +518,11 @@ Definition process_result (s : state) (id i t : nat) (st : stage) (tk : task) (r
       match s_buffered st with
       | sig :: rest =>
           (* consume the first buffered signal and re-run the task in the same commit *)
-          [txn [c_put i (st_touch (st_ctl st (s_bypass st) (s_jump_count st) rest (Some sig))); c_mark id; c_push (MRunTask i t)]]
+          (* stage.status = RUNNING and task.status = RUNNING are assigned directly (no validation) *)
+          [txn [c_put i (st_set (st_ctl st (s_bypass st) (s_jump_count st) rest (Some sig)) RUNNING (s_started st) (s_ended st)
+                                (s_fired st) (s_branches st) (s_has_exc st) (s_ctx st) (s_outs st)
+                                (task_set (s_tasks st) t RUNNING (t_started tk)));
+                c_mark id; c_push (MRunTask i t)]]
       | [] =>
           [txn [c_put i (st_set st SUSPENDED (s_started st) (s_ended st) (s_fired st) (s_branches st) (s_has_exc st)
                                    (s_ctx st) (s_outs st) (task_set (s_tasks st) t SUSPENDED (t_started tk))); c_mark id]]
